@@ -312,6 +312,8 @@ impl<'a> WrappedLogosLexer<'a> {
         &&& old(self).lexer.src()[old(self).lexer.off()] == 0x22u8 && old(self).lexer.src()[final(self).lexer.off() - 1] == 0x22u8
         &&& forall|i: int| old(self).lexer.off() <= i < final(self).lexer.off() ==> old(self).lexer.src()[i] != 10u8
       },                                                                       // :string_token_location_is_faithful
+      r is Some ==> forall|i: int| old(self).lexer.off() < i < final(self).lexer.off() - 1 && #[trigger] old(self).lexer.src()[i] == 0x22u8
+        ==> old(self).lexer.src()[i - 1] == 0x5cu8,                             // :interior_quotes_are_escaped
       final(self).module_reference == old(self).module_reference,
 //@loop 0
       invariant
@@ -322,9 +324,14 @@ impl<'a> WrappedLogosLexer<'a> {
         1 <= pos,
         remainder_bytes@.len() >= 1 && remainder_bytes@[0] == 0x22u8,
         forall|i: int| 0 <= i < pos && i < remainder_bytes@.len() ==> remainder_bytes@[i] != 10u8,
+        forall|i: int| 1 <= i < pos && i < remainder_bytes@.len() && #[trigger] remainder_bytes@[i] == 0x22u8 ==> remainder_bytes@[i - 1] == 0x5cu8,  // :interior_quotes_are_escaped_so_far
       decreases remainder_bytes@.len() - pos,
 //@loop 1 iter=it
+          invariant_except_break
+            escape_count == it.index(),
+            forall|j: int| 0 <= j < it.seq().len() ==> #[trigger] it.seq()[j] == pos - 1 - j,
           invariant
+            escape_count > 0 ==> remainder_bytes@[pos - 1] == 0x5cu8,  // :counted_quotes_escape_starts_right_before_the_quote
             0 <= escape_count <= it.index(),
             it.index() <= it.seq().len(),
             it.seq().len() == pos - 1,
@@ -338,6 +345,9 @@ impl<'a> WrappedLogosLexer<'a> {
             assert(is_boundary(s.skip(o), pos + 1));
             assert(remainder_bytes@.subrange(0, pos + 1) == s.skip(o).take(pos + 1));
             assert forall|i: int| o <= i < o + pos + 1 implies s[i] != 10u8 by { assert(s[i] == remainder_bytes@[i - o]); }
+            assert forall|i: int| o < i < o + pos && #[trigger] s[i] == 0x22u8 implies s[i - 1] == 0x5cu8 by {
+              assert(s[i] == remainder_bytes@[i - o]); assert(s[i - 1] == remainder_bytes@[i - o - 1]);
+            }
             lemma_advance_no_newline(s, o, pos + 1);
             lemma_pos_bounds(s, o + pos + 1);
           }
